@@ -41,6 +41,13 @@ func holder() *Holder {
 	return &Holder{N: T1{F: "", G: 9}, L: []*T1{{F: "abcd", G: 2}}, M: map[string]T1{"k": {F: "", G: 0}}}
 }
 
+type Scalars struct {
+	S []string       `valid:"required"`
+	I []int32        `valid:"exist"`
+	M map[string]int `valid:"required"`
+	P []*int         `valid:"exist"`
+}
+
 var sharedRM = valid.RM{}
 
 // isolatedBudget: child executions this worker may still spend on the one-process-per-execution fallback.
@@ -170,6 +177,22 @@ func callMenu() []callT {
 			func() (string, bool) {
 				return walk.Struct([]*T1{{F: "", G: 9}, {F: "abcd", G: 2}}, walk.Opts{}).Error(), true
 			}},
+		// two patterns that agree up to an escaped quote
+		{"Var(re with escaped quote, a-c)", func() []interface{} { return []interface{}{"it's abc", []string{"re='^it\\'s [a-c]+$'|must be a-c"}} },
+			func(a []interface{}) (string, []string) { return errText(valid.Var(a[0], a[1].([]string)...)), nil },
+			func() (string, bool) { return "<nil>", true }},
+		{"Var(re with escaped quote, x-z)", func() []interface{} { return []interface{}{"it's xyz", []string{"re='^it\\'s [x-z]+$'|must be x-z"}} },
+			func(a []interface{}) (string, []string) { return errText(valid.Var(a[0], a[1].([]string)...)), nil },
+			func() (string, bool) { return "<nil>", true }},
+		{"Var(re with escaped quote, x-z, failing)", func() []interface{} { return []interface{}{"it's abc", []string{"re='^it\\'s [x-z]+$'|must be x-z"}} },
+			func(a []interface{}) (string, []string) { return errText(valid.Var(a[0], a[1].([]string)...)), nil },
+			func() (string, bool) { return `input "it's abc", explain: must be x-z`, true }},
+		// calls that end early inside the walk: a source that is no struct, scalar collections under required / exist
+		{"Struct(int)", func() []interface{} { return []interface{}{5} },
+			func(a []interface{}) (string, []string) { return errText(valid.Struct(a[0])), nil }, nil},
+		{"Struct(scalar collections under required/exist)", func() []interface{} {
+			return []interface{}{&Scalars{S: []string{"a", "b", "c"}, I: []int32{1, 2}, M: map[string]int{"k": 1, "j": 2}, P: []*int{nil}}}
+		}, func(a []interface{}) (string, []string) { return errText(valid.Struct(a[0])), nil }, nil},
 		// two rule sets registered in one call: the caller's maps stay the caller's
 		{"VStruct.SetRule x2", func() []interface{} {
 			return []interface{}{&T1{F: "abcd", G: 2}, valid.RM{"F": "to=1~2|rm1-F"}, valid.RM{"G": "eq=7|rm2-G"}}
@@ -433,6 +456,35 @@ func run(c *runner.Ctx) {
 		c.Sample(func() interface{} {
 			return map[string]interface{}{"sequence": names, "pool_answer_executions": res.Execs, "bound": bound}
 		})
+	}
+
+	// long histories: one call repeated 100 times (whatever a call leaks - a counter, a pooled object that is a little
+	// more used each time - adds up), then every call once: still the fresh-state result. Scheduler inactive.
+	c.Space("after-100-repetitions-of-one-call")
+	for i := range menu {
+		if !c.Take() {
+			continue
+		}
+		d.inner = valid.NewLRU()
+		var bad string
+		pan, msg, site := runner.Guard(func() {
+			for k := 0; k < 100; k++ {
+				menu[i].run(menu[i].mk())
+			}
+			for j := range menu {
+				r, _ := menu[j].run(menu[j].mk())
+				if canon(r) != canon(fresh[j]) && bad == "" {
+					bad = menu[j].name
+					c.Violation("result-depends-on-history/after-100x/"+menu[j].name, map[string]interface{}{"repeated_call": menu[i].name, "call": menu[j].name, "fresh_result": fresh[j], "result_after_the_repetitions": r})
+				}
+			}
+		})
+		c.Done(true, 100+len(menu))
+		if pan {
+			c.Violation("panic@"+site, map[string]interface{}{"repeated_call": menu[i].name, "panic": msg})
+		} else if bad == "" {
+			c.Outcome("ok")
+		}
 	}
 
 	n := len(menu)
